@@ -471,4 +471,17 @@ theorem perm_of_vals_eq (l₁ l₂ : List (K × E)) (h : ∀ u, vals l₁ u = va
       simp only [hku, if_false] at this
       simp [hu, this]
 
+/-! ### handshake for the undirected flavours -/
+
+/-- undirected handshake: over a closed duplicate-free node set the degrees add up to twice the number of
+    edges (every edge is stored once as an outbound half, at the endpoint that made it) -/
+theorem Un.handshake' (s : Store K E) (h : Mirror s) (ks : List K) (hnd : ks.Nodup)
+    (hc : ∀ k ∈ ks, ∀ p ∈ unAdj s k, p.1 ∈ ks) :
+    (ks.map fun k => (unAdj s k).length).sum = 2 * (ks.map fun k => (s.get k).out.length).sum := by
+  have hb := degree_balance' s h ks hnd hc
+  have : (ks.map fun k => (unAdj s k).length) =
+      ks.map fun k => (s.get k).out.length + (s.get k).inn.length := by
+    apply List.map_congr_left; intro k _; simp [unAdj]
+  rw [this, sum_map_add, ← hb]; omega
+
 end G
